@@ -147,7 +147,7 @@ def r02_1(ctx):
         has_rect = ('param', P_RECT) in leaves
         has_maskrect = ('param', P_MASK_RECT) in leaves
         has_clip = any(l[0] == 'call' and l[1] == DT + 'clip_bounds' for l in leaves)
-        has_layer = any(l[0] == 'path' and ('f', 'rect') in l[2] and l[1][0] == 'call' and 'last_mut' in str(l[1][1]) for l in leaves)
+        has_layer = any(l[0] == 'path' and ('f', 'rect') in l[2] and l[1][0] == 'call' and ('last_mut' in str(l[1][1]) or str(l[1][1]).endswith('::last')) for l in leaves)
         has_surface = any(l[0] == 'call' and isinstance(l[1], str) and l[1].endswith('geom::intrect') and
                           any(is_self_field(a, 'width') for a in l[2]) and any(is_self_field(a, 'height') for a in l[2]) for l in leaves)
         for name, ok in (('the rect argument', has_rect), ('mask_rect', has_maskrect), ('clip_bounds()', has_clip),
@@ -653,6 +653,21 @@ def zero_preserving(t, covs):
     return False
 
 
+def guarded_alternatives(ctx, b, an, val):
+    """a stored value that is a join of values chosen by a test (`if cov == 255 { a } else { b }`): [(alternative term,
+    comparison facts holding where it is defined)]; [(val, [])] for anything else"""
+    v = strip_all(val)
+    if v[0] != 'phi' or not (2 <= len(v[2]) <= 4):
+        return [(val, [])]
+    out = []
+    for i in v[2]:
+        d = an.defs[i]
+        if d.kind not in ('assign', 'call') or d.partial:
+            return [(val, [])]
+        out.append((an.def_term(d) if d.kind == 'assign' else an.call_term(d.bb), list(normalized_guards(ctx, b, d.bb))))
+    return out
+
+
 def r02_7(ctx):
     """zero coverage leaves the destination untouched"""
     R = 'R02.7'
@@ -701,6 +716,8 @@ def r02_7(ctx):
             # coverage reads: the current elements of the u8 slices (every parameter but src and dst)
             cval = canon(val)
             covs = set(x for x in subterms(cval) if x[0] == 'elem' and x not in (dst_e, src_e))
+            for alt, _g in guarded_alternatives(ctx, b, an, val):
+                covs |= set(x for x in subterms(canon(alt)) if x[0] == 'elem' and x not in (dst_e, src_e))
             gs = list(normalized_guards(ctx, b, pt[0]))
             # elements that an .filter(pred) adaptor lets through satisfy pred
             root = addr
@@ -714,20 +731,39 @@ def r02_7(ctx):
                     for x in subterms(canon(a)):
                         if x in covs:
                             guarded.add(x)
-            v = strip_all(cval)
-            ok = False
-            if v[0] == 'call' and isinstance(v[1], str) and v[1] in ZERO_ID and canon(strip_all(addr)) == dst_e:
-                idpos, wpos = ZERO_ID[v[1]]
-                first_is_old = strip_all(v[2][idpos]) == dst_e
-                weights = [v[2][i] for i in wpos]
-                # every coverage byte that feeds a weight must either be guarded or flow zero-preservingly
-                cov_in_w = set()
-                for w in weights:
-                    for x in subterms(w):
-                        if x in covs:
-                            cov_in_w.add(x)
-                zp = all(zero_preserving(w, cov_in_w) for w in weights)
-                ok = first_is_old and (zp or cov_in_w <= guarded) and bool(cov_in_w)
+            ok = True
+            for alt, alt_gs in guarded_alternatives(ctx, b, an, val):
+                v = strip_all(canon(alt))
+                acovs = set(x for x in subterms(v) if x[0] == 'elem' and x not in (dst_e, src_e)) or covs
+                aguarded = set(guarded)
+                for op, a, b2, si in alt_gs:
+                    # `cov != 0`, `cov > 0`, and `cov == c` for a non-zero constant all exclude zero coverage
+                    if (op in ('Ne', 'Gt') and const_val(b2) == 0) or (op == 'Eq' and const_val(b2) not in (None, 0)):
+                        for x in subterms(canon(a)):
+                            if x[0] == 'elem' and x not in (dst_e, src_e):
+                                aguarded.add(x)
+                        # a product of coverages that is non-zero has non-zero factors
+                        ca = strip_all(canon(a))
+                        if ca in subterms(strip_all(cval)) or True:
+                            for x in subterms(ca):
+                                if x[0] == 'elem' and x not in (dst_e, src_e):
+                                    aguarded.add(x)
+                okv = False
+                if v[0] == 'call' and isinstance(v[1], str) and v[1] in ZERO_ID and canon(strip_all(addr)) == dst_e:
+                    idpos, wpos = ZERO_ID[v[1]]
+                    first_is_old = strip_all(v[2][idpos]) == dst_e
+                    weights = [v[2][i] for i in wpos]
+                    # every coverage byte that feeds a weight must either be guarded or flow zero-preservingly
+                    cov_in_w = set()
+                    for w in weights:
+                        for x in subterms(w):
+                            if x in covs:
+                                cov_in_w.add(x)
+                    zp = all(zero_preserving(w, cov_in_w) for w in weights)
+                    okv = first_is_old and (zp or cov_in_w <= aguarded) and bool(cov_in_w)
+                elif covs and covs <= aguarded and len(guarded_alternatives(ctx, b, an, val)) > 1:
+                    okv = True      # this alternative is only taken when every coverage byte is non-zero
+                ok = ok and okv
             ctx.check(ok, R, key + '|zero coverage is identity', b.loc(), 'zero coverage keeps the old pixel',
                       'with a coverage byte of 0 the new pixel is %s, which is not the old pixel: the weight is not zero at zero coverage (alpha_to_alpha256(0) = 1) and no `!= 0` guard skips the write' % fmt(b, strip_all(val)))
     ctx.floor(R, 'coverage-weighted destination writes', n, 4)
@@ -1026,7 +1062,18 @@ def r03_4(ctx):
                 ok = old == dst_e and is_blend(v) and len(canon.positions) <= 1
                 ctx.check(ok, R, key + '|roles', b.loc(), '*dst = T::blend(*src, *dst)', 'blend_row stores %s, expected T::blend(*src, *dst)' % fmt(b, strip_all(val)))
                 continue
-            ok = old == dst_e and v[0] == 'call' and isinstance(v[1], str) and v[1] in ZERO_ID and strip_all(v[2][0]) == dst_e and is_blend(v[2][1]) and len(canon.positions) <= 1
+            def is_interp(v):
+                return v[0] == 'call' and isinstance(v[1], str) and v[1] in ZERO_ID and strip_all(v[2][0]) == dst_e and is_blend(v[2][1])
+            alts = guarded_alternatives(ctx, b, an, val)
+            if len(alts) > 1:
+                # a value chosen by a test of the coverage: every alternative is the interpolation, or — where the
+                # coverage is known to be full — the blend result itself (R03.8 decides that this is exact)
+                vs = [(strip_all(canon(a)), g) for a, g in alts]
+                okalts = all(is_interp(x) or (is_blend(x) and any(op == 'Eq' and const_val(b2) == 255 for op, a2, b2, si in g)) for x, g in vs)
+                interp = [x for x, g in vs if is_interp(x)]
+                if okalts and len(interp) >= 1:
+                    v = interp[0]
+            ok = old == dst_e and is_interp(v) and len(canon.positions) <= 1
             ctx.check(ok, R, key + '|roles', b.loc(), '*dst = interp(*dst, T::blend(*src, *dst), coverage...)',
                       'the row proc stores %s: expected the interpolation from the old pixel (first) to T::blend(source, old pixel) (second), all read from the same pixel position' % fmt(b, strip_all(val)))
             if ok:
@@ -1084,6 +1131,27 @@ def alpha_conversions(ctx):
     return out
 
 
+def unclamp_byte(inner):
+    """E for a float `E` limited to [0, 255] (or one side of it) before a cast that saturates there anyway:
+    max(E, 0.), min(E, 255.), clamp(E, 0., 255.) in any nesting"""
+    t = inner
+    for _ in range(4):
+        tt = strip_all(t)
+        if tt[0] == 'call' and isinstance(tt[1], str):
+            last = tt[1].split('::')[-1]
+            if last == 'max' and len(tt[2]) == 2 and const_val(strip_all(tt[2][1])) == 0:
+                t = tt[2][0]
+                continue
+            if last == 'min' and len(tt[2]) == 2 and const_val(strip_all(tt[2][1])) == 255:
+                t = tt[2][0]
+                continue
+            if last == 'clamp' and len(tt[2]) == 3 and const_val(strip_all(tt[2][1])) == 0 and const_val(strip_all(tt[2][2])) == 255:
+                t = tt[2][0]
+                continue
+        break
+    return strip_all(t)
+
+
 def r03_6(ctx):
     """alpha byte conversion siblings: x*255 + 0.5, saturating at 255"""
     R = 'R03.6'
@@ -1092,6 +1160,8 @@ def r03_6(ctx):
     for b, s, t, bi in convs:
         key = short(b.q) + '|alpha byte'
         inner = t[3]
+        if t[2] == 'u8':
+            inner = unclamp_byte(inner)      # `as u8` saturates to [0, 255] and sends NaN to 0, exactly like the clamp
         form = (inner[0] == 'bin' and inner[1] == 'Add' and const_val(inner[3]) == 0.5 and inner[2][0] == 'bin' and inner[2][1] == 'Mul' and const_val(inner[2][3]) == 255.0)
         ctx.check(form, R, key + '|form', b.loc(s['sp']), 'x*255 + 0.5', 'the alpha conversion computes %s, expected x*255 + 0.5 (round to nearest)' % fmt(b, inner))
         ty = t[2]
@@ -1149,7 +1219,8 @@ def r03_5(ctx):
     def is_abyte(x):
         x = strip_casts(x, ('IntToInt',))
         return x == abyte or (is_call(x, '::min') and strip_casts(x[2][0], ('IntToInt',)) == abyte)
-    ok_src = strip_casts(abyte[3][2][2]) == ('param', 3) if abyte[3][0] == 'bin' and abyte[3][2][0] == 'bin' else False
+    ainner = unclamp_byte(abyte[3]) if abyte[2] == 'u8' else abyte[3]
+    ok_src = strip_casts(ainner[2][2]) == ('param', 3) if ainner[0] == 'bin' and ainner[2][0] == 'bin' else False
     ctx.check(ok_src, R, key + '|alpha param', b.loc(), 'alpha byte derives from the alpha parameter', 'the alpha byte is not computed from the alpha parameter')
     n = 0
     for bi, k2, s in b.statements():
@@ -1585,6 +1656,42 @@ def r06_4(ctx):
     s0, i0 = tuple_src(dest)
     s1, i1 = tuple_src(db)
     ok = s0 is not None and s0 == s1 and i0 == '0' and i1 == '1' and s0[0] == 'phi'
+    if not ok:
+        # the same selection made twice: `match layer_stack.last() {Some(l) => l.rect, None => surface}` for the bounds and
+        # `match layer_stack.last_mut() {Some(l) => &mut l.buf[..], None => self.buf.as_mut()}` for the slice — each a join
+        # of two values decided by whether the layer stack has a top, with nothing in between that changes the stack
+        def selection(t):
+            t = strip_all(t)
+            while t[0] == 'deref':
+                t = strip_all(t[1])
+            if t[0] != 'phi' or len(t[2]) != 2:
+                return None
+            out = {}
+            for i in t[2]:
+                d = an.defs[i]
+                if d.kind not in ('assign', 'call') or d.partial:
+                    return None
+                v = strip_all(an.def_term(d) if d.kind == 'assign' else an.call_term(d.bb))
+                vg = [(scr, vv) for scr, adt, vv, sb in variant_guards(ctx, b, d.bb)
+                      if is_call(strip_all(scr), '::last', '::last_mut') and any(is_self_field(strip_all(x), 'layer_stack') for x in subterms(strip_all(scr)[2][0]))]
+                if len(set(vv for scr, vv in vg)) != 1:
+                    return None
+                out[vg[0][1]] = v
+            return out if set(out) == {'Some', 'None'} else None
+        sd, sb = selection(dest), selection(db)
+        mut_between = [d for bi2, d, ct2 in calls_in(ctx, b) if d and any(is_self_field(strip_all(x), 'layer_stack') for a in ct2[2] for x in subterms(a)) and d.split('::')[-1] in ('push', 'pop', 'clear', 'truncate', 'insert', 'remove', 'swap_remove', 'drain', 'retain', 'append', 'extend', 'resize', 'split_off', 'replace', 'take', 'swap')]
+        if sd is not None and sb is not None and not mut_between:
+            l0 = any(x[0] == 'field' and x[2] == 'buf' and (x[3] or '').endswith('Layer') for x in subterms(sd['Some']))
+            l1 = sb['Some'][0] == 'field' and sb['Some'][2] == 'rect' and (sb['Some'][3] or '').endswith('Layer')
+            s0_ = any(x[0] == 'field' and x[2] == 'buf' and (x[3] or '').endswith('DrawTarget') for x in subterms(sd['None'])) and not any(x[0] == 'field' and x[2] == 'buf' and (x[3] or '').endswith('Layer') for x in subterms(sd['None']))
+            d1 = sb['None']
+            s1_ = is_call(d1, 'geom::intrect') and const_val(d1[2][0]) == 0 and const_val(d1[2][1]) == 0 and is_self_field(d1[2][2], 'width') and is_self_field(d1[2][3], 'height')
+            okp = l0 and l1 and s0_ and s1_
+            ctx.check(okp, R, key + '|dest,dest_bounds pair', call_line(b, bi), 'slice and bounds selected by the same test of the layer stack: layer buffer with layer rect, surface with (0,0,width,height)',
+                      'dest and dest_bounds are selected separately and do not pair the layer buffer with the layer rect and the surface with (0,0,width,height)')
+            if okp:
+                ctx.floor(R, 'destination arms', 2, 2)
+            return
     if not ctx.check(ok, R, key + '|dest,dest_bounds pair', call_line(b, bi), 'dest and dest_bounds are the two halves of one selection', 'dest and dest_bounds passed to choose_blitter are not the two components of one (slice, bounds) selection'):
         return
     arms = an.phi_terms(s0)
@@ -1661,22 +1768,28 @@ def r03_8(ctx):
             if kind != 'assign':
                 continue
             n += 1
-            v = strip_all(canon(val))
-            ok = False
             why = fmt(b, strip_all(val))[:160]
-            if is_call(v, 'sw_composite::lerp') and len(v[2]) == 3:
-                w = strip_casts(v[2][2], ('IntToInt',))
-                # exact forms: alpha_to_alpha256(c) with c a coverage byte, or a product of coverages normalised by muldiv255
-                if is_call(w, 'sw_composite::alpha_to_alpha256'):
-                    inner = strip_casts(w[2][0], ('IntToInt',))
-                    def cov_or_product(t):
-                        t = strip_casts(t, ('IntToInt',))
-                        if t[0] == 'elem' and t[1] not in (1, b.argc):
-                            return True
-                        if is_call(t, 'sw_composite::muldiv255'):
-                            return all(cov_or_product(a) for a in t[2])
-                        return False
-                    ok = cov_or_product(inner)
+            def cov_or_product(t):
+                t = strip_casts(t, ('IntToInt',))
+                if t[0] == 'elem' and t[1] not in (1, b.argc):
+                    return True
+                if is_call(t, 'sw_composite::muldiv255'):
+                    return all(cov_or_product(a) for a in t[2])
+                return False
+            ok = True
+            for alt, alt_gs in guarded_alternatives(ctx, b, an, val):
+                v = strip_all(canon(alt))
+                okv = False
+                if is_call(v, 'sw_composite::lerp') and len(v[2]) == 3:
+                    w = strip_casts(v[2][2], ('IntToInt',))
+                    # exact forms: alpha_to_alpha256(c) with c a coverage byte, or a product of coverages normalised by muldiv255
+                    if is_call(w, 'sw_composite::alpha_to_alpha256'):
+                        okv = cov_or_product(strip_casts(w[2][0], ('IntToInt',)))
+                elif v[0] == 'call' and isinstance(v[1], str) and v[1].endswith('Blend::blend') and len(v[2]) == 2 \
+                        and strip_all(v[2][0]) == ('elem', 1) and strip_all(v[2][1]) == ('elem', b.argc):
+                    # the blend result itself, stored on the branch taken at full coverage only
+                    okv = any(op == 'Eq' and const_val(b2) == 255 and cov_or_product(strip_all(canon(a))) for op, a, b2, si in alt_gs)
+                ok = ok and okv
             ctx.check(ok, R, key + '|exact at full coverage', b.loc(), 'weight = alpha_to_alpha256(coverage): 256 at full coverage, lerp returns exactly blend(src, dst)',
                       'at full coverage (255, and a fully covering clip) the row proc does not return exactly T::blend(src, dst): it stores %s, whose interpolation weight only reaches 255/256 (alpha_lerp multiplies (mask+1)*clip >> 8 = 255; a raw coverage byte is 255): an opaque Src/any non-SrcOver draw through a fully covering path clip is off by one level' % why)
     ctx.floor(R, 'interpolating row proc stores', n, 2)
@@ -1822,7 +1935,8 @@ def r03_10(ctx):
             pix = set(nosite(strip_all(a)) for a in ct[2][:2])
             # the store(s) whose value contains this call
             for addr, val, pt, kind in an.stores:
-                if kind != 'assign' or not any(x[0] == 'call' and x[3] == ct[3] for x in subterms(val) if len(x) == 4):
+                vals = [val] + [a for a, g in guarded_alternatives(ctx, b, an, val)]
+                if kind != 'assign' or not any(x[0] == 'call' and x[3] == ct[3] for vv in vals for x in subterms(vv) if len(x) == 4):
                     continue
                 n += 1
                 bad = []
